@@ -11,8 +11,10 @@ RULE = (
     "links) x targets over <=5 nested paths with duplicate and empty contents x force off (10% on) x prompt "
     "absent/declining/accepting/accepting some x relink on/off x LocalHashFileDB/HashFileDB x configured link "
     "types (single and lists) x existing kind copy/hardlink/symlink x with/without State; plus a stream with "
-    "target objects missing from the cache; plus histories record/modify/replace/remove/clean-up on tracked "
-    "links.  Every case is run twice (second call on the result).  Non-trivial: the first call changed the "
+    "target objects missing from the cache; plus two-checkout histories in one process on one cache directory "
+    "(forced checkout of version 1, objects collected from the cache, unforced checkout of version 2 through the "
+    "same or a fresh odb object); plus histories record/modify/replace/remove/clean-up on tracked links with "
+    "sub-second (0.25 s, 1 us) in-place rewrites inside recorded directory links.  Every case is run twice (second call on the result).  Non-trivial: the first call changed the "
     "workspace or raised."
 )
 ASSUMPTIONS = [
@@ -25,7 +27,7 @@ ASSUMPTIONS = [
 
 def run(ctx):
     C.check_deciders(ctx)
-    streams = [("guard", ctx.n(65, 650)), ("missing", ctx.n(20, 200)), ("converge", ctx.n(15, 150))]
+    streams = [("guard", ctx.n(50, 550)), ("history", ctx.n(25, 250)), ("missing", ctx.n(15, 150)), ("converge", ctx.n(10, 100))]
     if C.INCLUDE_DANGLING:
         streams.append(("dangling", ctx.n(10, 100)))
     items = C.run_stream(ctx, streams, "C05")
